@@ -6,7 +6,7 @@ package blob
 // This file contains comments only; it adds no code under any build tag.
 
 //@ spec inv(b *Bytes) := b != nil && b.mu != nil && b.length == len(b.bytes)
-//@ spec blobOK(x Blob) := x != nil && implies(isType(x, *Bytes), inv(x.(*Bytes)))
+//@ spec blobOK(x Blob) := x != nil && implies(isType(x, *Bytes), inv(x.(*Bytes))) && 0 <= blobLen(x) && blobLen(x) <= 1<<62
 //@ spec blobLen(x Blob) := ite(isType(x, *Bytes), len(x.(*Bytes).bytes), gint("blobLen", payload(x)))
 //@ spec blobAt(x Blob, i int) := ite(isType(x, *Bytes), x.(*Bytes).bytes[i], garr("blobAt", payload(x))[i])
 //@ spec blobLocked(x Blob) := isType(x, *Bytes) && held(x.(*Bytes).mu)
@@ -81,6 +81,7 @@ package blob
 //@                     forall(i, 0, old(len(b.bytes)), b.bytes[i] == old(b.bytes[i])) &&
 //@                     forall(i, old(len(b.bytes)), len(b.bytes), b.bytes[i] == 0))
 //@   ensures "inv" inv(b)
+//@   ensures "backing" ref(b.bytes) == old(ref(b.bytes)) || fresh(b.bytes)
 //@   nopanic
 
 //@ func (b *Bytes) Truncate(size int64) (err error)
@@ -95,7 +96,7 @@ package blob
 // ---- capability interfaces (assumed for foreign blobs) and the dispatch helpers ----
 
 //@ spec inRange(b Blob, start int64, end int64) := 0 <= start && start <= end && end <= blobLen(b)
-//@ spec isViewOf(r Blob, b Blob, start int64, end int64) := blobOK(r) && blobLen(r) == end-start && forall(i, 0, end-start, blobAt(r, i) == blobAt(b, start+i))
+//@ spec isViewOf(r Blob, b Blob, start int64, end int64) := blobOK(r) && !blobLocked(r) && blobLen(r) == end-start && forall(i, 0, end-start, blobAt(r, i) == blobAt(b, start+i))
 
 //@ interface ViewBlob.View(start int64, end int64) (r Blob, err error)
 //@   requires blobOK(self) && !blobLocked(self)
@@ -162,6 +163,8 @@ package blob
 //@   ensures "native" implies(offset >= 0 && implements(b, GrowBlob), err == nil && blobLen(b) == old(blobLen(b)) + offset &&
 //@                      forall(i, 0, old(blobLen(b)), blobAt(b, i) == old(blobAt(b, i))) && forall(i, old(blobLen(b)), blobLen(b), blobAt(b, i) == 0))
 //@   ensures "ok" blobOK(b) && !blobLocked(b)
+//@   ensures "backing" implies(isType(b, *Bytes), ref(b.(*Bytes).bytes) == old(ref(b.(*Bytes).bytes)) || fresh(b.(*Bytes).bytes)) &&
+//@                      implies(!isType(b, *Bytes), b.(*Bytes).bytes == old(b.(*Bytes).bytes))
 //@   nopanic
 
 //@ func Truncate(b Blob, size int64) (err error)
@@ -174,6 +177,7 @@ package blob
 //@   ensures "native" implies(size >= 0 && implements(b, TruncateBlob), err == nil && blobLen(b) == min(size, old(blobLen(b))) &&
 //@                      forall(i, 0, blobLen(b), blobAt(b, i) == old(blobAt(b, i))))
 //@   ensures "ok" blobOK(b) && !blobLocked(b)
+//@   ensures "backing" ref(b.(*Bytes).bytes) == old(ref(b.(*Bytes).bytes))
 //@   nopanic
 
 //@ func Set(dest Blob, src Blob, offset int64) (n int, err error)
